@@ -286,6 +286,12 @@ class Spec:
                     for e in ents:
                         self.deliver(e["name"], it, e["parent"] or it["parent"], e["props"], e["events"], "pushed", born=e["born"])
                         self.expected[-1]["closed"] = e["closed"]
+        elif op == "unwind":
+            while th["guards"]:
+                g = th["guards"].pop()
+                self.close_guard(t, g)
+                if g[0] == "scope" and g[1] is not None and g[1]["sampled"]:
+                    self.touch(t)
         elif op == "exit":
             while th["guards"]:
                 g = th["guards"].pop()
@@ -542,6 +548,9 @@ class Gen:
             return None
         return g[i]
 
+    def op_unwind(self, t):
+        self.emit(t, "unwind")
+
     def op_l_with_props(self, t):
         self.emit(t, "lWithProps %s" % self.closure())
 
@@ -733,6 +742,8 @@ class Gen:
                     choices.append(("lWithProps", 2))
                 if top[0] == "coll":
                     choices.append(("collect", 4))
+                if self.k.get("unwinds") and not self.calls.get(t):
+                    choices.append(("unwind", 2))
                 u = self.under(t)
                 if u is not None:
                     choices.append(("closeUnder", 5))
@@ -821,6 +832,9 @@ class Gen:
                 self.probe(t)
             elif c == "closeUnder":
                 self.op_close_under(t)
+                self.probe(t)
+            elif c == "unwind":
+                self.op_unwind(t)
                 self.probe(t)
             elif c == "collectUnder":
                 self.op_collect_under(t)
@@ -941,6 +955,8 @@ class Gen:
                     choices.append(("lWithProps", 3))
                 if top[0] == "coll":
                     choices.append(("collect", 4))
+                if self.k.get("unwinds") and not self.calls.get(t):
+                    choices.append(("unwind", 2))
                 u = self.under(t)
                 if u is not None:
                     choices.append(("closeUnder", 5))
@@ -985,6 +1001,8 @@ class Gen:
                 self.op_close(t)
             elif c == "collect":
                 self.op_collect(t)
+            elif c == "unwind":
+                self.op_unwind(t)
             elif c == "closeUnder":
                 self.op_close_under(t)
             elif c == "collectUnder":
